@@ -98,6 +98,14 @@ def expr_pairs(chk, tier):
     """nested expressions through b2b direct / subinterval with a fixed discretisation"""
     rng = chk.rng
     c13.patch_exp_recorder()
+    # witness of the open finding O37 (subinterval reconstitution is not inclusion isotone): f(x) = x * x, box [-1, 2] against its
+    # sub-box [-1, 1] with three tiles each: the middle tile [-1/3, 1/3] of the sub-box gives [-1/9, 1/9], below the lower end 0 of the box's result
+    wf, wsrc = c13.make_func(("mul", ("var", 0), ("var", 0)))
+    chk.count("witness-O37", key="O37")
+    w1, w2 = c13.run_strategy(wf, [(-1.0, 1.0)], ("sub_direct", 3)), c13.run_strategy(wf, [(-1.0, 2.0)], ("sub_direct", 3))
+    if w1[0] == "ok" and w2[0] == "ok" and not (w2[1] <= w1[1] and w1[2] <= w2[2]):
+        chk.report("b2b:sub_direct", f"result for the sub-box [{w1[1]}, {w1[2]}] is not contained in the result for the box [{w2[1]}, {w2[2]}]",
+                   {"kind": "witness", "function": "x[0] * x[0]", "sub_box": [[-1.0, 1.0]], "box": [[-1.0, 2.0]], "strategy": ["sub_direct", 3]})
     for fi in range(60 if tier == "quick" else 800):
         d = rng.choice([1, 2, 2, 3])
         e = c13.gen_expr(rng, d, rng.choice([2, 3]))
